@@ -214,7 +214,7 @@ func unmarshalRangeUTCTime(t *time.Time, s string) error {
 }
 
 func marshalRangeUTCTime(t time.Time) string {
-	return t.Format("20060102T150405Z")
+	return t.UTC().Format("20060102T150405Z")
 }
 
 // RangeUTC is a range expressed in UTC units.
